@@ -14,7 +14,8 @@ EXPLANATION = ("Structural necessary conditions of C05: a query root is a Comple
 RULES = ("R1 make_base_node accepts only ComplexGoal; R2 ComplexGoal arm: child=None after a failed stored child, "
          "exhausted exit precedes get_rule, exhausted path is effect-free; R3 who-may-write table of SolutionNode fields; "
          "R4 BuiltIn and Time clear more_solutions past the guard; R5 every path of the solver arms that returns None "
-         "does so after a failed sub-search, through a monotone guard, or with the one-shot flag already cleared")
+         "does so after a failed sub-search, through a monotone guard, or with the one-shot flag already cleared; R6 every "
+         "child node created by an arm is stored in the node (child / tail_sn) before it is searched")
 TRUSTED = ["rustc nightly MIR construction"]
 
 CONSTRUCTION_ONLY = {"number_facts_rules", "ss", "parent_node", "head_sn", "operator_tail", "goal", "kb"}
@@ -217,4 +218,28 @@ def run(ctx):
                "(more_solutions = false behind its guard): asked again, the node searches further and can succeed after "
                "having reported exhaustion — `g(1). t(a) :- not(g(1)).` answers nothing, then t(a)" % bad[1]["line"]
                if bad else "every None return follows a failed sub-search, a monotone guard or a latched one-shot flag (%d paths)" % n)
+    # ---- R6: a child node that is created is stored before it is searched ----------------------------------------
+    # (re-entry then resumes the stored, possibly exhausted, child instead of building a fresh one whose goals —
+    #  including print/nl — would run again after the query had reported exhaustion)
+    M_ = S.make_node
+    for nm, F, fps in arms:
+        fsn = S.sn(F)
+        bad = None
+        n = 0
+        for p in fps:
+            ev = p.events
+            for i, e in enumerate(ev):
+                if e["k"] == "call" and e["callee"] == M_.path:
+                    node = e["result"]
+                    n += 1
+                    search = next((j for j in range(i + 1, len(ev)) if ev[j]["k"] == "call" and ev[j]["callee"] in solver_fns
+                                   and strip(ev[j]["args"][0]) == node), len(ev))
+                    stored = [x for x in ev[i + 1:search] if x["k"] == "write" and x["place"][0] == "field" and x["place"][1] == fsn
+                              and x["place"][2] in ("child", "tail_sn", "head_sn") and strip(some_payload(x["value"]) or ()) == node]
+                    if not stored:
+                        bad = e
+        ctx.ob("R6", "child-stored-before-search(%s)" % nm, bad is None and n > 0, ctx.where(F, bad["line"] if bad else None),
+               "the node created at line %d is searched without first being stored in child/tail_sn: asked again after "
+               "exhaustion, this node builds a fresh child and runs its goals (and their output) again" % bad["line"] if bad else
+               "every created child is stored in the node before it is searched (%d creation events)" % n)
     # INFO: Not arm
